@@ -442,6 +442,9 @@ func (p *idxProver) lowerBound(v ssa.Value, at ssa.Instruction) (int64, bool) {
 		if isBuiltin(x, "len") {
 			up(int64(p.minLen(x.Call.Args[0], at)))
 		}
+		if isBuiltin(x, "copy") {
+			up(0) // the number of elements copied
+		}
 		switch calleeName(x) {
 		case "strings.IndexByte", "strings.Index", "strings.LastIndexByte", "strings.IndexRune", "strings.LastIndex":
 			up(-1)
@@ -536,6 +539,11 @@ func (p *idxProver) upperRel(v ssa.Value, at ssa.Instruction) (ssa.Value, int64,
 		}
 	case *ssa.Call:
 		if isBuiltin(x, "len") {
+			s, k := p.lenBase(x.Call.Args[0])
+			return s, k, true
+		}
+		if isBuiltin(x, "copy") {
+			// copy(dst, src) <= len(dst)
 			s, k := p.lenBase(x.Call.Args[0])
 			return s, k, true
 		}
@@ -1089,6 +1097,36 @@ func (p *idxProver) collect(f *ssa.Function) []idxOb {
 				if ok && c.X == ssa.Value(b) && c.Op == token.LSS && ft.True {
 					if call, okc := c.Y.(*ssa.Call); okc && isBuiltin(call, "len") && sameVal(call.Call.Args[0], x) {
 						return true, "range over the indexed collection itself"
+					}
+				}
+			}
+		}
+		// an element stored at the running offset of a slice made for exactly the pieces that are copied into it:
+		// E-SEQ's tiling proof (pieces start where the previous one ended, the made length is their sum, on every
+		// path to this store) puts every piece, this element included, inside the slice
+		if mk, isMk := x.(*ssa.MakeSlice); isMk {
+			if _, isIA := in.(*ssa.IndexAddr); isIA {
+				paths, complete := enumPaths(in.Parent(), in, 512)
+				okAll := complete && len(paths) > 0
+				e := &seqEngine{p.w}
+				for _, pc := range paths {
+					if !okAll {
+						break
+					}
+					// the store through this address lies in the same block; evaluate the tiling on the path
+					if sv := e.evalMake(mk, pc); sv.Unknown != "" {
+						okAll = false
+					}
+				}
+				if okAll {
+					stored := false
+					for _, ref := range *in.(*ssa.IndexAddr).Referrers() {
+						if st, isSt := ref.(*ssa.Store); isSt && st.Addr == in.(ssa.Value) && st.Block() == in.Block() {
+							stored = true
+						}
+					}
+					if stored {
+						return true, "element of a slice made for exactly the pieces copied into it (tiling proved by E-SEQ on every path)"
 					}
 				}
 			}
